@@ -148,6 +148,67 @@ qloops!(q5_iter, q5_iterb, q5_iterd, q5_find_a, q5_find_d, q5_findb_a, q5_findb_
 qloops!(q6_iter, q6_iterb, q6_iterd, q6_find_a, q6_find_d, q6_findb_a, q6_findb_d,
     [e: &EntityAny, qa: &Qa, qp: &mut Qp], e, [], [qa], [qp]);
 
+// ---------------------------------------------------------------------------------------------
+// The same queries with other SHAPES of the closure body: a bare method call, a bare function call,
+// a `match` expression -- no enclosing block. What the body evaluates to is the step.
+pub struct Caller<'a, 'b> {
+    pub cb: &'a mut (dyn FnMut(Visit, Option<&VW>) -> Dec + 'b),
+    pub w: Option<&'a VW>,
+}
+impl<'a, 'b> Caller<'a, 'b> {
+    pub fn go(&mut self, a: usize, t: Tok, direct: Option<EntityDirectAny>, bound: Vec<(&'static str, Val)>) -> Dec {
+        if reg::closure_tick() {
+            panic!("injected closure fault");
+        }
+        (self.cb)(Visit { a, tok: t, direct, bound }, self.w)
+    }
+    pub fn step(&mut self, a: usize, t: Tok, direct: Option<EntityDirectAny>, bound: Vec<(&'static str, Val)>) -> EcsStep {
+        self.go(a, t, direct, bound).step()
+    }
+    pub fn step_destroy(&mut self, a: usize, t: Tok, direct: Option<EntityDirectAny>, bound: Vec<(&'static str, Val)>) -> EcsStepDestroy {
+        self.go(a, t, direct, bound).step_destroy()
+    }
+}
+fn call_step(c: &mut Caller, a: usize, t: Tok, direct: Option<EntityDirectAny>, bound: Vec<(&'static str, Val)>) -> EcsStep {
+    c.step(a, t, direct, bound)
+}
+fn call_step_destroy(c: &mut Caller, a: usize, t: Tok, direct: Option<EntityDirectAny>, bound: Vec<(&'static str, Val)>) -> EcsStepDestroy {
+    c.step_destroy(a, t, direct, bound)
+}
+
+macro_rules! qshapes {
+    ($iter:ident, $iterb:ident, $iterd:ident, [$($params:tt)*], $e:ident, $direct:expr, $bound:expr) => {
+        pub fn $iter(w: &mut VW, cb: Cb, shape: u32) {
+            let mut caller = Caller { cb, w: None };
+            match shape {
+                1 => ecs_iter!(w, |$($params)*| caller.step(<MatchedArchetype as AOps>::IDX, tok(*$e), $direct, $bound)),
+                2 => ecs_iter!(w, |$($params)*| call_step(&mut caller, <MatchedArchetype as AOps>::IDX, tok(*$e), $direct, $bound)),
+                _ => ecs_iter!(w, |$($params)*| match caller.go(<MatchedArchetype as AOps>::IDX, tok(*$e), $direct, $bound).step { Step::Break | Step::BreakDestroy => EcsStep::Break, _ => EcsStep::Continue }),
+            }
+        }
+        pub fn $iterb(w: &VW, cb: Cb, shape: u32) {
+            let mut caller = Caller { cb, w: Some(w) };
+            match shape {
+                1 => ecs_iter_borrow!(w, |$($params)*| caller.step(<MatchedArchetype as AOps>::IDX, tok(*$e), $direct, $bound)),
+                2 => ecs_iter_borrow!(w, |$($params)*| call_step(&mut caller, <MatchedArchetype as AOps>::IDX, tok(*$e), $direct, $bound)),
+                _ => ecs_iter_borrow!(w, |$($params)*| match caller.go(<MatchedArchetype as AOps>::IDX, tok(*$e), $direct, $bound).step { Step::Break | Step::BreakDestroy => EcsStep::Break, _ => EcsStep::Continue }),
+            }
+        }
+        pub fn $iterd(w: &mut VW, cb: Cb, shape: u32) {
+            let mut caller = Caller { cb, w: None };
+            match shape {
+                1 => ecs_iter_destroy!(w, |$($params)*| caller.step_destroy(<MatchedArchetype as AOps>::IDX, tok(*$e), $direct, $bound)),
+                2 => ecs_iter_destroy!(w, |$($params)*| call_step_destroy(&mut caller, <MatchedArchetype as AOps>::IDX, tok(*$e), $direct, $bound)),
+                _ => ecs_iter_destroy!(w, |$($params)*| match caller.go(<MatchedArchetype as AOps>::IDX, tok(*$e), $direct, $bound).step {
+                    Step::Break => EcsStepDestroy::Break, Step::BreakDestroy => EcsStepDestroy::BreakDestroy,
+                    Step::ContinueDestroy => EcsStepDestroy::ContinueDestroy, Step::Continue => EcsStepDestroy::Continue }),
+            }
+        }
+    };
+}
+qshapes!(q0s_iter, q0s_iterb, q0s_iterd, [e: &EntityAny, d: &EntityDirectAny], e, Some((*d).into()), vec![]);
+qshapes!(q3s_iter, q3s_iterb, q3s_iterd, [e: &EntityAny, x: &OneOf<Tz, Th>], e, None, vec![bound_of(x)]);
+
 #[derive(Clone, Copy, PartialEq, Debug)]
 pub enum Mac {
     Iter,
@@ -156,6 +217,20 @@ pub enum Mac {
 }
 
 pub fn run_loop(q: usize, mac: Mac, w: &mut VW, cb: Cb) {
+    // the read-only menus rotate through four shapes of the closure body (0 = the block form below)
+    if q == 0 || q == 3 {
+        let shape = reg::with(|r| { r.shape = r.shape.wrapping_add(1); r.shape % 4 });
+        if shape != 0 {
+            match (q, mac) {
+                (0, Mac::Iter) => return q0s_iter(w, cb, shape),
+                (0, Mac::IterBorrow) => return q0s_iterb(w, cb, shape),
+                (0, Mac::IterDestroy) => return q0s_iterd(w, cb, shape),
+                (_, Mac::Iter) => return q3s_iter(w, cb, shape),
+                (_, Mac::IterBorrow) => return q3s_iterb(w, cb, shape),
+                (_, Mac::IterDestroy) => return q3s_iterd(w, cb, shape),
+            }
+        }
+    }
     macro_rules! go {
         ($i:ident, $b:ident, $d:ident) => {
             match mac {
